@@ -33,7 +33,7 @@ type ListCase struct {
 
 const (
 	nSlots     = 5
-	maxListLen = 64
+	maxListLen = 160
 	keyShift   = 12
 	nKeys      = 6
 )
@@ -394,6 +394,9 @@ func (r *listRun[T]) cursorOp(op Op) string {
 		c.real.Push(r.b.in(v))
 	case "add":
 		k := a % 4 // 0..3 values; Add() with no values inserts nothing
+		if a >= 180 { // one call with dozens of values (variadic arity around 16/32/64)
+			k = []int{15, 16, 17, 31, 32, 33, 40, 64, 65}[a%9]
+		}
 		if len(r.ids)+k > maxListLen {
 			r.skippedFull++
 			return ""
